@@ -176,6 +176,16 @@ def make_items(tier, seed):
             emb.append({"nq": 13, "gates": [[g[0], [m[q] for q in g[1]]] + g[2:] for g in gl]})
     for i in range(0, len(emb), 40):
         items.append({"fam": "embedded", "circuits": emb[i : i + 40]})
+    # the same circuit object optimized, edited in place to another gate list of the same length and
+    # optimized again (results must not be remembered per object / per length)
+    rh = circorp.fixed_random(160 if tier == "thorough" else 60, 909, nq_choices=(3,), length=(2, 7), kinds=["x", "x", "cx", "cx", "cx", "ccx", "h", "barrier"])
+    hist = []
+    for a, b in zip(rh[::2], rh[1::2]):
+        n = min(len(a["gates"]), len(b["gates"]))
+        hist.append({"nq": 3, "A": a["gates"][:n], "B": b["gates"][:n]})
+    hist.append({"nq": 3, "A": [["cx", [0, 1]], ["cx", [0, 1]], ["x", [2]]], "B": [["x", [2]], ["cx", [0, 1]], ["cx", [1, 2]]]})
+    for i in range(0, len(hist), 10):
+        items.append({"fam": "history", "pairs": hist[i : i + 10]})
     from .. import corpus
 
     progs = [p[1] for p in corpus.u_ctl()[:: (2 if tier == "thorough" else 7)] if corpus.size_ok(p[1], 8, 50)]
@@ -222,6 +232,22 @@ def check_item(spec):
                     circs.append((src.split("\n")[1].strip(), qf.circuit()))
             except Exception:
                 continue
+    elif spec["fam"] == "history":
+        from qlasskit.decompiler import circuit_boolean_optimizer
+
+        circs = []
+        for pr in spec["pairs"]:
+            qc = circorp.build(pr["A"], pr["nq"])
+            other = circorp.build(pr["B"], pr["nq"])
+            try:
+                circuit_boolean_optimizer(qc)
+            except Exception:
+                pass
+            for _ in range(len(qc.gates)):
+                qc.gates.pop()
+            for g, w, p in other.gates:
+                qc.append(g, list(w), p)
+            circs.append(("optimize %s; edit in place to %s; optimize" % (circorp.show(pr["A"]), circorp.show(pr["B"])), qc))
     else:
         circs = ((circorp.show(gl), circorp.build(gl, nq)) for nq, gl in circuits_of(spec))
     for label, qc in circs:
